@@ -167,7 +167,12 @@ def run_property(prop, tier, seed, mods, jobs=16, only='', rebaseline=False, t0=
                 else:
                     violations.append(entry)
             elif any(o['verdict'] == 'sat' for o in failing):
-                entry['how'] = 'solver counter-model (exact real arithmetic) not reproduced in floating point'
+                whys = ' '.join(str((o.get('cex') or {}).get('why', '')) for o in failing)
+                if 'no native replay' in whys or 'opaque' in whys:
+                    entry['how'] = ('obligation refuted under the interpreter; this contract has no native replay '
+                                    '(callees replaced by hooks / opaque induction hypotheses)')
+                else:
+                    entry['how'] = 'solver counter-model (exact real arithmetic) not reproduced in floating point'
                 entry['unreplayed'] = [o.get('cex') for o in failing if o.get('cex')][:1]
                 if k:
                     known_hits.append((k, entry))
